@@ -44,7 +44,13 @@ fn tie_class<const D: usize>(pts: &[parry3d_f64::na::Point<f64, D>], members: &[
 }
 
 fn judge_tree<const D: usize>(tree: &dyn KdTreeSearch<D>, pts: &[parry3d_f64::na::Point<f64, D>], members: &[usize], queries: &[parry3d_f64::na::Point<f64, D>], case: &Case, l: &mut Local) {
+    judge_tree_scaled(tree, pts, members, queries, 1.0, case, l)
+}
+
+/// `sc` is the length unit of the point set: radii and tolerances are multiples of it
+fn judge_tree_scaled<const D: usize>(tree: &dyn KdTreeSearch<D>, pts: &[parry3d_f64::na::Point<f64, D>], members: &[usize], queries: &[parry3d_f64::na::Point<f64, D>], sc: f64, case: &Case, l: &mut Local) {
     let mk = || serde_json::to_value(case).unwrap();
+    let e12 = 1e-12 * sc;
     let n = members.len();
     let class = tie_class(pts, members);
     if !class.is_empty() {
@@ -62,8 +68,8 @@ fn judge_tree<const D: usize>(tree: &dyn KdTreeSearch<D>, pts: &[parry3d_f64::na
                 continue;
             }
         };
-        l.outcome(hash_of(&(n.min(6), (d1 * 4.0) as i64)));
-        l.check("nearest_one returns the brute-force nearest with its original index", class, (d1 - ds[0].0).abs() <= 1e-12 && members.contains(&i1) && ((pts[i1] - q).norm() - d1).abs() <= 1e-12, mk, || {
+        l.outcome(hash_of(&(n.min(6), (d1 / sc * 4.0) as i64)));
+        l.check("nearest_one returns the brute-force nearest with its original index", class, (d1 - ds[0].0).abs() <= e12 && members.contains(&i1) && ((pts[i1] - q).norm() - d1).abs() <= e12, mk, || {
             format!("q {:?}: ({}, {}) expected distance {}", q, i1, d1, ds[0].0)
         });
         for k in [1usize, 2, 3, n, n + 2] {
@@ -74,10 +80,10 @@ fn judge_tree<const D: usize>(tree: &dyn KdTreeSearch<D>, pts: &[parry3d_f64::na
             if ok {
                 let mut got: Vec<f64> = r.iter().map(|x| x.1).collect();
                 got.sort_by(|a, b| a.partial_cmp(b).unwrap());
-                ok &= (0..want).all(|j| (got[j] - ds[j].0).abs() <= 1e-12);
-                ok &= r.iter().all(|(i, d)| members.contains(i) && ((pts[*i] - q).norm() - d).abs() <= 1e-12);
+                ok &= (0..want).all(|j| (got[j] - ds[j].0).abs() <= e12);
+                ok &= r.iter().all(|(i, d)| members.contains(i) && ((pts[*i] - q).norm() - d).abs() <= e12);
                 // index set equals the brute-force set unless a tie sits on the k-th boundary
-                let tie = want < n && (ds[want - 1].0 - ds[want].0).abs() <= 1e-12;
+                let tie = want < n && (ds[want - 1].0 - ds[want].0).abs() <= e12;
                 // duplicates of the same point are interchangeable: compare as multisets of positions
                 if tie {
                     l.gray("tie on the k-th neighbour boundary");
@@ -93,15 +99,16 @@ fn judge_tree<const D: usize>(tree: &dyn KdTreeSearch<D>, pts: &[parry3d_f64::na
             l.check("k-nearest returns the brute-force distances with original indices", class, ok, mk, || format!("q {:?} k {}: {:?} expected {:?}", q, k, r, &ds[..want.min(ds.len())]));
         }
         for rad in [0.0, 0.5, 1.0, std::f64::consts::SQRT_2, 2.0] {
+            let rad = rad * sc;
             l.eval();
             let r = tree.within(q, rad);
             let gotset: BTreeSet<usize> = r.iter().map(|x| x.0).collect();
-            let sure: Vec<usize> = ds.iter().filter(|(d, _)| *d < rad - 1e-12).map(|x| x.1).collect();
-            let maybe: Vec<usize> = ds.iter().filter(|(d, _)| *d <= rad + 1e-12).map(|x| x.1).collect();
+            let sure: Vec<usize> = ds.iter().filter(|(d, _)| *d < rad - e12).map(|x| x.1).collect();
+            let maybe: Vec<usize> = ds.iter().filter(|(d, _)| *d <= rad + e12).map(|x| x.1).collect();
             if sure.len() != maybe.len() {
                 l.gray("point exactly on the search radius");
             }
-            let ok = r.len() >= sure.len() && r.len() <= maybe.len() && sure.iter().all(|i| gotset.contains(i)) && gotset.iter().all(|i| maybe.contains(i)) && r.iter().all(|(i, d)| ((pts[*i] - q).norm() - d).abs() <= 1e-12);
+            let ok = r.len() >= sure.len() && r.len() <= maybe.len() && sure.iter().all(|i| gotset.contains(i)) && gotset.iter().all(|i| maybe.contains(i)) && r.iter().all(|(i, d)| ((pts[*i] - q).norm() - d).abs() <= e12);
             l.check("radius query returns exactly the points within the radius", class, ok, mk, || format!("q {:?} r {}: {:?} (certain {:?}, possible {:?})", q, rad, r, sure, maybe));
         }
     }
@@ -528,12 +535,17 @@ pub fn judge(case: &Case, l: &mut Local) {
     match case.kind.as_str() {
         "kd2" => {
             let lat = gen::lattice2(3);
-            let all: Vec<Point2> = lat.iter().map(|c| gen::p2(*c, 1.0)).collect();
+            let sc = if case.param > 0.0 { case.param } else { 1.0 };
+            let all: Vec<Point2> = lat.iter().map(|c| gen::p2(*c, sc)).collect();
             let pts: Vec<Point2> = case.idx.iter().map(|i| all[*i]).collect();
             let members: Vec<usize> = (0..pts.len()).collect();
             l.bucket(if case.idx.windows(2).any(|w| w[0] == w[1]) { "kd-tree with duplicate points" } else { "kd-tree with distinct points" });
+            if sc != 1.0 {
+                l.bucket("kd-tree at another length unit");
+            }
             let tree = KdTree::new(&pts);
-            judge_tree(&tree, &pts, &members, &grid_queries2(), case, l);
+            let qs: Vec<Point2> = grid_queries2().iter().map(|q| Point2::from(q.coords * sc)).collect();
+            judge_tree_scaled(&tree, &pts, &members, &qs, sc, case, l);
         }
         "kd3" => {
             let lat = gen::lattice3(2);
@@ -618,8 +630,12 @@ pub fn cases(tier: Tier) -> Vec<Case> {
         out.push(c("kd2", vec![a], 0, 0.0));
         for b in a..9 {
             out.push(c("kd2", vec![a, b], 0, 0.0));
+            // the same sets in nanometres and in kilometres
+            out.push(c("kd2", vec![a, b], 0, 1e-9));
+            out.push(c("kd2", vec![a, b], 0, 1e3));
             for d in b..9 {
                 out.push(c("kd2", vec![a, b, d], 0, 0.0));
+                out.push(c("kd2", vec![a, b, d], 0, 1e-9));
                 for e in d..9 {
                     out.push(c("kd2", vec![a, b, d, e], 0, 0.0));
                 }
@@ -761,7 +777,7 @@ pub fn run(tier: Tier) -> i32 {
     let mut cx = Ctx::new("C15", tier, "exploration");
     cx.rule = "kd-trees: every multiset of <= 4 points of the 3x3 lattice and <= 3 of the 2x2x2 lattice (duplicates included), 4 structured large sets (8x8 grid, 40 duplicates, 1000 collinear, two clusters) x a half-integer query grid x k in {1,2,3,n,n+2} x 5 radii; partial tree: every ordered subset of <= 4 of 6 points; Poisson disk: every ordering of every subset (2..5) of 6 lattice points x 4 radii; hulls: every subset of 3..6 lattice points (+ duplicates); farthest pair on the hull of every subset of 3..4 (thorough 5) points of a 5x5 lattice given as a polygon from every start vertex; every simple lattice polygon with <= 5 (thorough 6) vertices in both orientations for order detection, from_points_ccw and ball pivot at 3 radii; mesh sampling with the RNG owned by the explorer: all 216 draw triples per mesh for sample_uniform, dense sampling at 3 spacings, the Poisson sampler's shuffle explored with <= 2 non-default draws. distinct = distinct cases".into();
     cx.bounds = json!({"kd2_multiset": 4, "kd3_multiset": 3, "partial_subset": 4, "poisson_subset": 5, "polygon_vertices": tier.pick(5, 6), "rng_alphabet": 6, "shuffle_deviations": 2});
-    cx.require(&["kd-tree with duplicate points", "kd-tree with distinct points", "3D kd-tree", "structured large kd-tree", "kd-tree over gridded mesh samples", "index-remapped partial tree", "poisson-disk ordering", "collinear point set", "point set with duplicates", "general point set", "convex polygon given directly, every start vertex", "counter-clockwise simple polygon", "clockwise simple polygon", "ball pivot run", "ball pivot outline with filled gaps", "scripted uniform draw", "dense sampling", "scripted shuffle of the mesh Poisson sampler"]);
+    cx.require(&["kd-tree with duplicate points", "kd-tree with distinct points", "kd-tree at another length unit", "3D kd-tree", "structured large kd-tree", "kd-tree over gridded mesh samples", "index-remapped partial tree", "poisson-disk ordering", "collinear point set", "point set with duplicates", "general point set", "convex polygon given directly, every start vertex", "counter-clockwise simple polygon", "clockwise simple polygon", "ball pivot run", "ball pivot outline with filled gaps", "scripted uniform draw", "dense sampling", "scripted shuffle of the mesh Poisson sampler"]);
     cx.assume("ties exactly on the k-th neighbour or the radius boundary are gray (either answer accepted); uniformity beyond 'the face is the inverse-CDF image of the draw' is not claimed");
     let cs = cases(tier);
     let l = sweep(&cs, judge);
